@@ -387,6 +387,8 @@ class Staircase(Pbox):
             try:
                 mean_lo, var_lo = get_mean_var_from_ecdf(self.left, self._pvalues)
                 mean_hi, var_hi = get_mean_var_from_ecdf(self.right, self._pvalues)
+                # the variances of the two bounding ECDFs are not ordered like their means
+                var_lo, var_hi = min(var_lo, var_hi), max(var_lo, var_hi)
                 self.mean_lo, self.mean_hi = mean_lo, mean_hi
                 self.var_lo, self.var_hi = var_lo, var_hi
                 mean_I = I(self.mean_lo, self.mean_hi)
